@@ -507,3 +507,15 @@ Definition hwloc_map (sockets : list Z) (R sing nb : Z) : outcome :=
   | _ => let '(vs, tot) := hw_loop sockets 0 nb in
          Map (Z.of_nat (length vs)) tot (map (map (consolidate sing)) vs)
   end.
+
+(* the same with runtime_num_cores = numcores (<= 0: the allowed cores): the user may ask for more threads
+   than allowed cores (oversubscription) *)
+Definition over_nb (R nb numcores : Z) : Z :=
+  let m := if numcores <=? 0 then R else numcores in
+  if nb <=? 0 then m else Z.min nb m.
+Definition user_flat_bindings_nc (allowed : list Z) (sing nb numcores : Z) : option (list Z) :=
+  let R := Z.of_nat (length allowed) in
+  match flat R sing (over_nb R nb numcores) with
+  | Map _ _ [ths] => Some (apply_locations allowed [] R ths)
+  | _ => None
+  end.
